@@ -570,6 +570,10 @@ func genSelect(r *Rand, u []TSpec, names []string, o sopts) *Stmt {
 				}
 			}
 		}
+		if len(q.GroupBy) > 1 && r.Chance(0.4) {
+			// GROUP BY need not list its keys in SELECT order
+			q.GroupBy[0], q.GroupBy[1] = q.GroupBy[1], q.GroupBy[0]
+		}
 		if r.Chance(0.5) {
 			// one more aggregate over some binding
 			b := bs[r.Intn(len(bs))]
